@@ -731,7 +731,7 @@ fn build_ledger(a: &mut Analysis) {
                     // The wrapper revokes its triggers right after the body's deferred commands have been applied:
                     // until then the registrations still schedule it (and the scheduled reaction is then skipped
                     // because the system is gone).
-                    let until = run.busy_end.max(pos);
+                    let until = run.busy_end.max(pos) + 1;
                     for r in regs.iter_mut() {
                         if r.inst == inst && r.end.map(|(e, _)| e > until).unwrap_or(true) {
                             r.end = Some((until, EndWhy::OnceDone));
